@@ -8,7 +8,7 @@ PROPS = ['Rangers.Props.C02', 'Rangers.Props.C02Facts', 'Rangers.Props.C02Live',
 DRIVERS = ['C02']
 META = dict(
     level='proof',
-    technique='Lean 4 theorems (49 obligations, core Lean, no Mathlib) about executable transcriptions of '
+    technique='Lean 4 theorems (52 obligations, core Lean, no Mathlib) about executable transcriptions of '
               'src/storage/trie: (a) the fully loaded trie: insert/delete keep the minimal form, minimal form is unique '
               'for a content, root history-independent for every hash function, node encoding = Yellow Paper c(J,i), '
               'reads = last write, iteration complete and ordered, panic branches unreachable; (b) the live trie '
@@ -18,8 +18,9 @@ META = dict(
               'structural dump of the in-memory trie via reflection (T-corr) and re-extracted source facts (T-gen).',
     level_text='machine-checked proof over a model of the code; model tied by correspondence and generated facts',
     level_note='theorems hold for every hash function H; Keccak-256 is executed (Lean) and compared with common/sha3 on '
-               'sampled inputs, not proved. The NodeIterator stack machine is modelled and run next to its specification '
-               'iterFrom, but their equality is checked (run time + correspondence), not proved. Cap/Dereference are C03. '
+               'sampled inputs, not proved. The NodeIterator stack machine is proved equal to its specification iterFrom for full '
+               'iteration; iteration from a non-empty start key (seek) is checked at run time and by correspondence only. '
+               'Cap/Dereference are C03. '
                'The "ascending key order" clause is false for keys that are '
                'prefixes of one another (known finding iter-order-prefix-keys; proved counterexample).',
     trusted_base=['Lean 4 kernel (leanchecker in thorough)', 'harness/cmd/c02 and gen/cmd/c02facts (Go, ours)',
